@@ -22,7 +22,9 @@ func (*inRange) Exit(node *Node) {
 			// 'x in a..b' tests membership in the integers a..b; the two
 			// comparisons are only equivalent for an integer x (1.5 is not in
 			// 1..2, a string is in no range).
-			if t := n.Left.Type(); t != nil && !isInteger(t.Kind()) {
+			if t := n.Left.Type(); t != nil && (!isInteger(t.Kind()) || t.PkgPath() != "") {
+				// (a named integer type cannot be compared with an int at run
+				// time; unrewritten, it is simply not in the range)
 				return
 			}
 			// A nil-safe access has an integer static type but yields nil
